@@ -805,4 +805,449 @@ Section WithHash.
       rewrite N.div_small by assumption. rewrite N.mul_0_r. cbn [N.eqb].
       reflexivity.
   Qed.
+
+  (* ---------------------------------------------------------------- *)
+  (* Part E: main lemmas over insert sequences from new_store          *)
+
+  Lemma reach_inv (d : hash) hs (st : store) :
+    add_all new_store hs = Some st -> N.of_nat (length hs) <= start_index ->
+    exists val, Inv st val /\
+      st_index st = start_index - N.of_nat (length hs) /\
+      (forall i h, nth_error hs i = Some h -> val (start_index - N.of_nat i) = h).
+  Proof.
+    intros A L.
+    destruct (add_all_inv hs new_store (fun _ => d) st
+                (Inv_new _) L A) as (val & I & X & _ & NT).
+    exists val. split; [assumption|]. split; assumption.
+  Qed.
+
+  Lemma store_exact hs (st : store) :
+    add_all new_store hs = Some st -> N.of_nat (length hs) <= start_index ->
+    forall i h, nth_error hs i = Some h -> lookup st (N.of_nat i) = Some h.
+  Proof.
+    intros A L i h E.
+    destruct (reach_inv h hs st A L) as (val & I & X & NT).
+    assert (Li : (i < length hs)%nat) by (apply nth_error_Some; congruence).
+    rewrite (lookup_inv st val (N.of_nat i) I) by lia.
+    f_equal. apply NT. assumption.
+  Qed.
+
+  Lemma add_all_app : forall a b (st : store),
+    add_all st (a ++ b) =
+    match add_all st a with Some s => add_all s b | None => None end.
+  Proof.
+    induction a as [|h r IH]; intros b st; [reflexivity|].
+    cbn [app Model.add_all]. destruct (add_next st h); [apply IH|reflexivity].
+  Qed.
+
+  (* an accepted store never later returns a different value for an old index *)
+  Lemma store_stable hs more (st st' : store) :
+    add_all new_store hs = Some st -> add_all st more = Some st' ->
+    N.of_nat (length hs + length more) <= start_index ->
+    forall i h, nth_error hs i = Some h -> lookup st' (N.of_nat i) = Some h.
+  Proof.
+    intros A1 A2 L i h E.
+    apply (store_exact (hs ++ more)).
+    - rewrite add_all_app, A1. assumption.
+    - rewrite app_length. assumption.
+    - rewrite nth_error_app1; [assumption|]. apply nth_error_Some. congruence.
+  Qed.
+
+  Lemma bounded hs (st : store) :
+    add_all new_store hs = Some st -> N.of_nat (length hs) <= start_index ->
+    len_buckets st <= 48.
+  Proof.
+    intros A L. destruct hs as [|h r].
+    - injection A as <-. cbn. lia.
+    - destruct (reach_inv h _ st A L) as (val & I & _). apply (inv_len _ _ I).
+  Qed.
+
+  (* acceptance criterion, purely in terms of the history *)
+  Lemma accept_iff hs (st : store) h :
+    add_all new_store hs = Some st ->
+    N.of_nat (length hs) < start_index ->
+    let k := N.of_nat (length hs) in
+    (add_next st h <> None <->
+     forall b, b < count_trailing_zeros (start_index - k) ->
+               2 ^ b <= k /\
+               nth_error hs (N.to_nat (k - 2 ^ b)) = Some (H (flip b h))).
+  Proof.
+    intros A L k.
+    destruct (reach_inv h hs st A ltac:(lia)) as (val & I & X & NT).
+    fold k in X.
+    assert (P : 0 < st_index st) by lia.
+    rewrite (add_next_accept_iff st val I P h).
+    unfold accept_cond. rewrite X.
+    assert (CH : forall b, b < count_trailing_zeros (start_index - k) ->
+                 2 ^ b <= k /\ (N.to_nat (k - 2 ^ b) < length hs)%nat /\
+                 start_index - k + 2 ^ b = start_index - N.of_nat (N.to_nat (k - 2 ^ b))).
+    { intros b Lb. pose proof (child_range st val I P b) as CR.
+      rewrite X in CR. destruct (CR Lb) as (_ & R & _).
+      pose proof (pow2_pos b). unfold start_index in *. rewrite two48 in R.
+      rewrite N2Nat.id. unfold k in *. lia. }
+    split.
+    - intros AC b Lb. destruct (CH b Lb) as (C1 & C2 & C3). split; [assumption|].
+      destruct (nth_error hs (N.to_nat (k - 2 ^ b))) as [h'|] eqn:E;
+        [|apply nth_error_None in E; lia].
+      rewrite (AC b Lb), C3. f_equal. symmetry. apply NT. assumption.
+    - intros AC b Lb. destruct (CH b Lb) as (C1 & C2 & C3).
+      destruct (AC b Lb) as [_ E]. rewrite C3. symmetry. apply NT. assumption.
+  Qed.
+
+  Lemma bounded_search (P : N -> Prop) (dec : forall b, {P b} + {~ P b}) :
+    forall n, (forall b, b < N.of_nat n -> P b) \/
+              (exists b, b < N.of_nat n /\ ~ P b).
+  Proof.
+    induction n as [|n [IH|(b & Lb & NP)]].
+    - left. intros b Lb. lia.
+    - destruct (dec (N.of_nat n)) as [Y|NP].
+      + left. intros b Lb. rewrite Nat2N.inj_succ in Lb.
+        destruct (N.eq_dec b (N.of_nat n)) as [->|NE]; [assumption|apply IH; lia].
+      + right. exists (N.of_nat n). split; [lia|assumption].
+    - right. exists b. split; [lia|assumption].
+  Qed.
+
+  Lemma opt_hash_dec (a b : option hash) : {a = b} + {a <> b}.
+  Proof.
+    destruct a as [x|], b as [y|]; try (right; discriminate); [|left; reflexivity].
+    destruct (hash_eqb x y) eqn:E.
+    - left. f_equal. apply hash_eqb_eq. assumption.
+    - right. intros [= ->]. assert (hash_eqb y y = true) by (apply hash_eqb_eq; reflexivity).
+      congruence.
+  Qed.
+
+  Lemma reject_iff hs (st : store) h :
+    add_all new_store hs = Some st ->
+    N.of_nat (length hs) < start_index ->
+    let k := N.of_nat (length hs) in
+    (add_next st h = None <->
+     exists b, b < count_trailing_zeros (start_index - k) /\
+               nth_error hs (N.to_nat (k - 2 ^ b)) <> Some (H (flip b h))).
+  Proof.
+    intros A L k. pose proof (accept_iff hs st h A L) as AI. cbv zeta in AI. fold k in AI.
+    set (z := count_trailing_zeros (start_index - k)) in *.
+    split.
+    - intros E.
+      destruct (bounded_search
+                  (fun b => nth_error hs (N.to_nat (k - 2 ^ b)) = Some (H (flip b h)))
+                  (fun b => opt_hash_dec _ _) (N.to_nat z)) as [ALL|(b & Lb & NP)].
+      + exfalso. rewrite N2Nat.id in ALL.
+        assert (NN : add_next st h <> None).
+        { apply AI. intros b Lb. split; [|apply ALL; assumption].
+          destruct (reach_inv h hs st A ltac:(lia)) as (val & I & X & _).
+          pose proof (child_range st val I ltac:(lia) b) as CR.
+          rewrite X in CR. fold k in CR. destruct (CR Lb) as (_ & R & _).
+          unfold start_index in *. rewrite two48 in R. lia. }
+        congruence.
+      + exists b. rewrite N2Nat.id in Lb. split; assumption.
+    - intros (b & Lb & NP). destruct (add_next st h) eqn:E; [|reflexivity].
+      exfalso. apply NP. apply AI; [congruence|assumption].
+  Qed.
+
+  Lemma producer_accepted root hs :
+    N.of_nat (length hs) <= start_index ->
+    (forall i, (i < length hs)%nat -> nth_error hs i = at_index root (N.of_nat i)) ->
+    exists st : store, add_all new_store hs = Some st /\
+      forall i, (i < length hs)%nat -> lookup st (N.of_nat i) = at_index root (N.of_nat i).
+  Proof.
+    intros L PR.
+    destruct (add_all_accepts hs new_store (pval root)
+                (Inv_new _) L (pval_edges root)) as (st & A & I).
+    - intros i h E.
+      assert (Li : (i < length hs)%nat) by (apply nth_error_Some; congruence).
+      rewrite (PR i Li), at_index_pval in E. injection E as <-. reflexivity.
+    - exists st. split; [assumption|]. intros i Li.
+      destruct (nth_error hs i) as [h|] eqn:E; [|apply nth_error_None in E; lia].
+      rewrite (store_exact hs st A L i h E), <- (PR i Li). symmetry. exact E.
+  Qed.
+
+  (* the gap: a secret whose index has no trailing zeros (every second insert,
+     starting with the very first) has nothing to be checked against *)
+  Lemma leaf_unchecked hs (st : store) :
+    add_all new_store hs = Some st ->
+    N.of_nat (length hs) < start_index ->
+    count_trailing_zeros (start_index - N.of_nat (length hs)) = 0 ->
+    forall h, add_next st h <> None.
+  Proof.
+    intros A L Z h. apply (accept_iff hs st h A L). rewrite Z. intros b Lb. lia.
+  Qed.
+
+  (* ---- stores that agree on every observable ---- *)
+  Definition store_eq (a b : store) : Prop :=
+    len_buckets a = len_buckets b /\ st_index a = st_index b /\
+    forall i, bucket_get (buckets a) i = bucket_get (buckets b) i.
+
+  Lemma Inv_eq st st' val : store_eq st st' -> Inv st val -> Inv st' val.
+  Proof.
+    intros (E1 & E2 & E3) I. destruct I as [I1 I2 I3 I4 I5 I6 I7].
+    constructor; rewrite <- ?E1, <- ?E2; try assumption.
+    - intros b e. rewrite <- E3. apply I3.
+    - intros x. rewrite <- E3. apply I4.
+    - intros b. rewrite <- E3. apply I5.
+    - intros to L1 L2. destruct (I6 to L1 L2) as (b & e & G & R).
+      exists b, e. rewrite <- E3. split; assumption.
+  Qed.
 End WithHash.
+
+(* ------------------------------------------------------------------ *)
+(* Part F: the byte-level instance and the codec                        *)
+From Coq Require Import PeanoNat.
+From LV Require Import Common.Sha256 Shachain.Exec.
+
+Lemma bytes_eqb_eq a b : bytes_eqb a b = true <-> a = b.
+Proof.
+  revert b. induction a as [|x a IH]; intros [|y b]; cbn [bytes_eqb];
+    split; try discriminate; try reflexivity.
+  - intros E. apply andb_true_iff in E. destruct E as [E1 E2].
+    apply N.eqb_eq in E1. apply IH in E2. congruence.
+  - intros [= -> ->]. rewrite N.eqb_refl. cbn [andb]. apply IH. reflexivity.
+Qed.
+
+Lemma be_bytes_S n x :
+  be_bytes (S n) x = N.land (N.shiftr x (8 * N.of_nat n)) 255 :: be_bytes n x.
+Proof. unfold be_bytes. rewrite seq_S, rev_unit. reflexivity. Qed.
+
+Lemma be_bytes_length n x : length (be_bytes n x) = n.
+Proof. unfold be_bytes. rewrite map_length, rev_length, seq_length. reflexivity. Qed.
+
+Lemma of_be_be n : forall x acc,
+  of_be (be_bytes n x) acc = acc * 256 ^ N.of_nat n + x mod 256 ^ N.of_nat n.
+Proof.
+  induction n as [|n IH]; intros x acc.
+  - cbn. rewrite N.mod_1_r. lia.
+  - rewrite be_bytes_S. cbn [of_be]. rewrite IH, Nat2N.inj_succ, N.pow_succ_r'.
+    change 255 with (N.ones 8). rewrite N.land_ones, N.shiftr_div_pow2, N.pow_mul_r.
+    change (2 ^ 8) with 256.
+    rewrite (N.mul_comm 256 (256 ^ N.of_nat n)).
+    rewrite (N.mod_mul_r x (256 ^ N.of_nat n) 256)
+      by (try apply N.pow_nonzero; discriminate).
+    ring.
+Qed.
+
+Lemma of_be_be8 x : x < 2 ^ 64 -> of_be (be 8 x) 0 = x.
+Proof.
+  intros L. unfold be. rewrite of_be_be. change (256 ^ N.of_nat 8) with (2 ^ 64).
+  rewrite N.mod_small by assumption. lia.
+Qed.
+
+Lemma be1 x : x < 256 -> be 1 x = [x].
+Proof.
+  intros L. unfold be. rewrite be_bytes_S. cbn [N.of_nat be_bytes map rev seq].
+  rewrite N.mul_0_r, N.shiftr_0_r. change 255 with (N.ones 8).
+  rewrite N.land_ones. change (2 ^ 8) with 256. rewrite N.mod_small by assumption.
+  reflexivity.
+Qed.
+
+Lemma firstn_app_len {A} (a b : list A) n : length a = n -> firstn n (a ++ b) = a.
+Proof.
+  intros <-. rewrite firstn_app, Nat.sub_diag, firstn_all. cbn [firstn].
+  apply app_nil_r.
+Qed.
+
+Lemma skipn_app_len {A} (a b : list A) n : length a = n -> skipn n (a ++ b) = b.
+Proof. intros <-. rewrite skipn_app, Nat.sub_diag, skipn_all. reflexivity. Qed.
+
+Definition wf_el (e : element bytes) : Prop :=
+  el_index e < 2 ^ 64 /\ length (el_hash e) = 32%nat.
+
+Lemma dec_enc_buckets : forall n i bs rest acc,
+  (forall b, i <= b < i + N.of_nat n ->
+             exists e, bucket_get bs b = Some e /\ wf_el e) ->
+  exists acc', dec_buckets n i (enc_buckets n i bs ++ rest) acc = Some (acc', rest) /\
+    forall b, bucket_get acc' b =
+              if (N.leb i b && N.ltb b (i + N.of_nat n))%bool
+              then bucket_get bs b else bucket_get acc b.
+Proof.
+  induction n as [|n IH]; intros i bs rest acc WF.
+  - exists acc. cbn [enc_buckets dec_buckets app N.of_nat]. split; [reflexivity|].
+    intros b. destruct (N.leb_spec i b), (N.ltb_spec b (i + 0)); cbn [andb];
+      try reflexivity; lia.
+  - rewrite Nat2N.inj_succ in WF.
+    destruct (WF i ltac:(lia)) as ([ei eh] & G & W1 & W2). cbn [el_index el_hash] in *.
+    cbn [enc_buckets dec_buckets]. rewrite G. cbn [el_index el_hash].
+    rewrite <- !app_assoc.
+    assert (L8 : length (be 8 ei) = 8%nat) by apply be_bytes_length.
+    destruct (Nat.ltb_spec
+                (length (be 8 ei ++ eh ++ enc_buckets n (i + 1) bs ++ rest)) 40) as [X|_].
+    { rewrite !app_length, L8, W2 in X. lia. }
+    rewrite (firstn_app_len _ _ 8 L8), (skipn_app_len _ _ 8 L8).
+    rewrite (firstn_app_len _ _ 32 W2), of_be_be8 by assumption.
+    rewrite (app_assoc (be 8 ei) eh).
+    rewrite (skipn_app_len (be 8 ei ++ eh) _ 40)
+      by (rewrite app_length, L8, W2; reflexivity).
+    destruct (IH (i + 1) bs rest ((i, mkEl ei eh) :: acc)) as (acc' & D & B).
+    { intros b Lb. apply WF. lia. }
+    exists acc'. split; [exact D|]. intros b. rewrite B. cbn [bucket_get].
+    destruct (N.eqb_spec b i) as [->|NE].
+    + rewrite G.
+      destruct (N.leb_spec (i + 1) i), (N.leb_spec i i),
+        (N.ltb_spec i (i + N.succ (N.of_nat n))); cbn [andb]; try reflexivity; lia.
+    + destruct (N.leb_spec (i + 1) b), (N.leb_spec i b),
+        (N.ltb_spec b (i + 1 + N.of_nat n)),
+        (N.ltb_spec b (i + N.succ (N.of_nat n))); cbn [andb]; try reflexivity; lia.
+Qed.
+
+Definition wf_store (st : bstore) : Prop :=
+  len_buckets st <= 48 /\ st_index st < 2 ^ 64 /\
+  forall b, b < len_buckets st ->
+            exists e, bucket_get (buckets st) b = Some e /\ wf_el e.
+
+Lemma encode_length st :
+  wf_store st -> N.of_nat (length (encode st)) = 9 + 40 * len_buckets st.
+Proof.
+  intros (W1 & W2 & W3). unfold encode. rewrite !app_length.
+  unfold be. rewrite !be_bytes_length.
+  assert (EL : forall n i, (forall b, i <= b < i + N.of_nat n ->
+                             exists e, bucket_get (buckets st) b = Some e /\ wf_el e) ->
+               length (enc_buckets n i (buckets st)) = (40 * n)%nat).
+  { induction n as [|n IH]; intros i WF; [reflexivity|].
+    rewrite Nat2N.inj_succ in WF.
+    destruct (WF i ltac:(lia)) as (e & G & _ & WL).
+    cbn [enc_buckets]. rewrite G, !app_length. unfold be.
+    rewrite be_bytes_length, WL, IH; [lia|]. intros b Lb. apply WF. lia. }
+  rewrite EL; [lia|]. rewrite N2Nat.id. intros b Lb. apply W3. lia.
+Qed.
+
+Lemma decode_encode st :
+  wf_store st ->
+  exists st', decode (encode st) = Some st' /\
+    len_buckets st' = len_buckets st /\ st_index st' = st_index st /\
+    forall b, bucket_get (buckets st') b =
+              if N.ltb b (len_buckets st) then bucket_get (buckets st) b else None.
+Proof.
+  intros (W1 & W2 & W3). unfold encode. rewrite be1 by lia.
+  cbn [app decode].
+  destruct (N.ltb_spec 48 (len_buckets st)) as [X|_]; [lia|].
+  destruct (dec_enc_buckets (N.to_nat (len_buckets st)) 0 (buckets st)
+              (be 8 (st_index st)) []) as (acc' & D & B).
+  { rewrite N2Nat.id. intros b Lb. apply W3. lia. }
+  rewrite D.
+  assert (L8 : length (be 8 (st_index st)) = 8%nat) by apply be_bytes_length.
+  rewrite L8. cbn [Nat.ltb Nat.leb].
+  rewrite <- L8 at 1. rewrite firstn_all, of_be_be8 by assumption.
+  eexists. split; [reflexivity|]. cbn [len_buckets st_index buckets].
+  split; [reflexivity|]. split; [reflexivity|].
+  intros b. rewrite B, N2Nat.id. cbn [bucket_get].
+  destruct (N.leb_spec 0 b), (N.ltb_spec b (0 + len_buckets st)),
+    (N.ltb_spec b (len_buckets st)); cbn [andb]; try reflexivity; lia.
+Qed.
+
+(* ---- operation sequences with reloads through the codec ---- *)
+Inductive sop := SAdd (h : bytes) | SReload.
+
+Definition reload (st : bstore) : option bstore := decode (encode st).
+
+Fixpoint run_ops (st : bstore) (ops : list sop) : option bstore :=
+  match ops with
+  | [] => Some st
+  | SAdd h :: r =>
+    match b_add st h with Some st' => run_ops st' r | None => None end
+  | SReload :: r =>
+    match reload st with Some st' => run_ops st' r | None => None end
+  end.
+
+Fixpoint adds_of (ops : list sop) : list bytes :=
+  match ops with
+  | [] => []
+  | SAdd h :: r => h :: adds_of r
+  | SReload :: r => adds_of r
+  end.
+
+Notation BInv := (Inv bytes sha256 flip_bytes).
+Notation bstore_eq := (store_eq bytes).
+
+Definition len32 (lo : N) (val : N -> bytes) : Prop :=
+  forall x, lo < x -> x < 2 ^ 48 -> length (val x) = 32%nat.
+
+Lemma Inv_wf st val : BInv st val -> len32 (st_index st) val -> wf_store st.
+Proof.
+  intros I L. split; [apply (inv_len _ _ _ _ _ I)|]. split.
+  - pose proof (inv_idx _ _ _ _ _ I). change (2 ^ 64) with (2 ^ 48 * 2 ^ 16). lia.
+  - intros b Lb. pose proof (inv_dense _ _ _ _ _ I b Lb) as D.
+    destruct (bucket_get (buckets st) b) as [e|] eqn:G; [|contradiction].
+    exists e. split; [reflexivity|].
+    destruct (inv_bucket _ _ _ _ _ I b e G) as (_ & _ & C & D' & _ & F).
+    split; [change (2 ^ 64) with (2 ^ 48 * 2 ^ 16); lia|].
+    rewrite F. apply L; assumption.
+Qed.
+
+Lemma reload_eq st val :
+  BInv st val -> len32 (st_index st) val ->
+  exists st', reload st = Some st' /\ bstore_eq st st'.
+Proof.
+  intros I L. destruct (decode_encode st (Inv_wf st val I L)) as (st' & D & E1 & E2 & E3).
+  exists st'. split; [exact D|]. split; [congruence|]. split; [congruence|].
+  intros b. rewrite E3. destruct (N.ltb_spec b (len_buckets st)) as [Lb|Lb]; [reflexivity|].
+  destruct (bucket_get (buckets st) b) as [e|] eqn:G; [|reflexivity].
+  destruct (inv_bucket _ _ _ _ _ I b e G) as (A & _). lia.
+Qed.
+
+Lemma run_ops_inv : forall ops st val st',
+  BInv st val -> len32 (st_index st) val ->
+  Forall (fun h => length h = 32%nat) (adds_of ops) ->
+  N.of_nat (length (adds_of ops)) <= st_index st ->
+  run_ops st ops = Some st' ->
+  exists val', BInv st' val' /\ len32 (st_index st') val' /\
+    st_index st' = st_index st - N.of_nat (length (adds_of ops)) /\
+    (forall x, st_index st < x -> val' x = val x) /\
+    (forall i h, nth_error (adds_of ops) i = Some h ->
+                 val' (st_index st - N.of_nat i) = h).
+Proof.
+  induction ops as [|[h|] r IH]; intros st val st' I L32 F L A.
+  - cbn [run_ops] in A. injection A as <-. exists val. cbn [adds_of length N.of_nat].
+    split; [assumption|]. split; [assumption|]. split; [lia|]. split; [reflexivity|].
+    intros [|i] h0; discriminate.
+  - cbn [run_ops adds_of length] in *. rewrite Nat2N.inj_succ in L.
+    inversion F as [|? ? F1 F2]; subst.
+    destruct (b_add st h) as [st1|] eqn:A1; [|discriminate].
+    destruct (add_next_step bytes sha256 flip_bytes bytes_eqb bytes_eqb_eq
+                st val h st1 I ltac:(lia) A1) as (I1 & X1 & _).
+    assert (L1 : len32 (st_index st1) (upd bytes val (st_index st) h)).
+    { intros x Lx1 Lx2. unfold upd. destruct (N.eqb_spec x (st_index st)); [assumption|].
+      apply L32; [lia|assumption]. }
+    destruct (IH st1 _ st' I1 L1 F2 ltac:(lia) A) as (val' & I' & L' & X' & AG & NT).
+    exists val'. split; [assumption|]. split; [assumption|]. split; [|split].
+    + rewrite Nat2N.inj_succ. lia.
+    + intros x Lx. rewrite AG by lia. unfold upd.
+      destruct (N.eqb_spec x (st_index st)); [lia|reflexivity].
+    + intros [|i] h0 E; cbn [nth_error] in E.
+      * injection E as <-. cbn [N.of_nat]. rewrite N.sub_0_r, AG by lia.
+        unfold upd. rewrite N.eqb_refl. reflexivity.
+      * rewrite Nat2N.inj_succ.
+        replace (st_index st - N.succ (N.of_nat i))
+          with (st_index st1 - N.of_nat i) by lia.
+        apply NT. assumption.
+  - cbn [run_ops adds_of] in *.
+    destruct (reload_eq st val I L32) as (st1 & R & EQ). rewrite R in A.
+    pose proof (Inv_eq _ _ _ _ _ _ EQ I) as I1.
+    destruct EQ as (_ & EI & _).
+    rewrite EI in *.
+    apply (IH st1 val st' I1 L32 F L A).
+Qed.
+
+Lemma codec_roundtrip ops st :
+  run_ops new_store ops = Some st ->
+  Forall (fun h => length h = 32%nat) (adds_of ops) ->
+  N.of_nat (length (adds_of ops)) <= start_index ->
+  (exists st', decode (encode st) = Some st' /\ bstore_eq st st') /\
+  (forall i h, nth_error (adds_of ops) i = Some h -> b_lookup st (N.of_nat i) = Some h) /\
+  len_buckets st <= 48 /\
+  N.of_nat (length (encode st)) = 9 + 40 * len_buckets st.
+Proof.
+  intros A F L.
+  assert (L0 : len32 (st_index (@new_store bytes)) (fun _ => [])).
+  { intros x L1 L2. cbn [new_store st_index] in L1. unfold start_index in L1.
+    rewrite two48 in L2. lia. }
+  destruct (run_ops_inv ops new_store (fun _ => []) st
+              (Inv_new bytes sha256 flip_bytes _) L0 F L A)
+    as (val & I & L32 & X & _ & NT).
+  cbn [new_store st_index] in X, NT.
+  split; [apply (reload_eq st val I L32)|]. split; [|split].
+  - intros i h E.
+    assert (Li : (i < length (adds_of ops))%nat) by (apply nth_error_Some; congruence).
+    unfold b_lookup.
+    rewrite (lookup_inv bytes sha256 flip_bytes st val (N.of_nat i) I) by lia.
+    f_equal. apply NT. assumption.
+  - apply (inv_len _ _ _ _ _ I).
+  - apply encode_length. apply (Inv_wf st val I L32).
+Qed.
